@@ -759,7 +759,6 @@ func ruleTerminate(c *Ctx) {
 	}
 }
 
-
 // ruleLongComment: 'meaning does not depend on comment forms'. A long comment --[[ … ]] may be followed
 // by program text on the same line; the short-comment loop (skip to end of line) must not run after it.
 func ruleLongComment(c *Ctx) {
